@@ -27,7 +27,8 @@ RULE = ('E1: breadth-first search over histories of assignments '
         'listener at all on the second instance, and a layout with '
         'duplicate listeners and a listener registered on both instances.  '
         'States are merged on (model, generic object graph of both '
-        'transforms); quick: depth 3, thorough: to fixpoint.  E3 '
+        'transforms); quick: depth 3; thorough: depth 4, and to fixpoint '
+        '(closes at depth 6) for the duplicate/shared layout.  E3 '
         '"listener-subsets": every ordered pair of subsets (empty = not '
         'registered) for two listeners on one transform x every single '
         'assignment, a second transform with a listener for all events '
@@ -395,12 +396,9 @@ class TransformDriver:
         if ctx.log:
             raise Violation('no_cross_talk', 'reading properties notified '
                             'listeners', kind='read', dim=self.dim)
-        if ctx.steps == 0:
-            feat = dict(dim=self.dim, where='default_constructed')
-            for t in ctx.t:
-                check_defaults(self.dim, t, feat)
-            defaults_not_shared(self.dim, ctx.t[0], ctx.t[1], feat)
-            defaults_not_shared(self.dim, ctx.t[1], ctx.t[0], feat)
+        # defaults and their not being shared: E3 part "constructor" (the
+        # kernel evaluates check() on the initial state outside any
+        # transition, where a Violation cannot be recorded)
         return tuple(obs)
 
     def key(self, ctx):
@@ -543,7 +541,7 @@ def run_constructor_case(case):
             hits['plain_tuple_value'] += 1
     # instances built afterwards still start from the defaults, and nothing
     # any instance returns is a mutable object another one returns
-    feat = dict(dim=dim, where='after_constructor_with_arguments')
+    feat = dict(dim=dim, where='constructor')
     check_defaults(dim, fresh, feat)
     check_defaults(dim, third, feat)
     shared = 0
@@ -575,8 +573,13 @@ def drivers(tier):
     for dim in (2, 3):
         for layout in layouts:
             drv = TransformDriver(dim, layout)
-            kw = dict(max_depth=3) if tier == 'quick' else dict(
-                max_states=400000, time_budget=600)
+            if tier == 'quick':
+                kw = dict(max_depth=3)
+            elif layout == 'dup-shared':
+                # fewest listeners = cheapest canonical key: to fixpoint
+                kw = dict(max_states=400000, time_budget=600)
+            else:
+                kw = dict(max_depth=4)
             d[drv.name] = (drv, kw)
     return d
 
@@ -605,8 +608,9 @@ def run(tier, rep):
         'be counted as information only',
         'dispatch_enabled = False (queued notifications) belongs to C04 and '
         'is outside the alphabet; listeners have no side effects',
-        'quick: histories up to depth 3 (depth cap reported); thorough: '
-        'fixpoint of the merged state space',
+        'quick: histories up to depth 3; thorough: depth 4 for the two '
+        'subset layouts (depth caps reported, so `exhaustive` is false) and '
+        'the fixpoint of the merged state space for the dup-shared layout',
     ]
     rep.require_hits(rotation_out_of_range=1, negative_rotation=1,
                      other_instance_listener=1, other_event_listener=1,
